@@ -545,6 +545,29 @@ def unit_bounded(U):
                 fails.append({"case": {"initial": first, "then": "update([exon, exon]); update([exon])"}, "expected": exp, "observed": got})
         except Exception as e:
             fails.append({"case": {"initial": first, "then": "update([exon, exon]); update([exon])"}, "expected": "unique keys exon_1..", "observed": repr(e)})
+    # keys that differ only in letter case (or by a trailing blank) are different keys: both stored, each looked up exactly
+    for via in ("create_db", "update"):
+        cases += 1
+        a, b, c = _mk("c", "gene", {"ID": ["Abc1"], "Note": ["first"]}), _mk("c", "gene", {"ID": ["ABC1"], "Note": ["second"]}), _mk("c", "gene", {"ID": ["geneA"]})
+        try:
+            if via == "create_db":
+                db = gffutils.create_db([a, b, c], ":memory:", id_spec="ID")
+            else:
+                db = gffutils.create_db([a, c], ":memory:", id_spec="ID")
+                db.update([b], make_backup=False)
+            got = sorted(f.id for f in db.all_features())
+            notes = [list(db["Abc1"].attributes["Note"]), list(db["ABC1"].attributes["Note"])]
+            absent = []
+            for k in ("abc1", "GENEA", "geneA "):
+                try:
+                    db[k]
+                    absent.append("found %r" % k)
+                except FeatureNotFoundError:
+                    absent.append("absent")
+            if got != ["ABC1", "Abc1", "geneA"] or notes != [["first"], ["second"]] or absent != ["absent"] * 3:
+                fails.append({"case": {"ids": ["Abc1", "ABC1", "geneA"], "via": via}, "expected": [["ABC1", "Abc1", "geneA"], [["first"], ["second"]], ["absent"] * 3], "observed": [got, notes, absent]})
+        except Exception as e:
+            fails.append({"case": {"ids": ["Abc1", "ABC1", "geneA"], "via": via}, "expected": "both stored", "observed": repr(e)})
     # an explicit ID that LOOKS like a generated key ('<featuretype>_<n>') is an ID like any other: a second feature with it
     # is a duplicate handled by the merge strategy, never re-keyed; through create_db and through update()
     for ft, idv in (("exon", "exon_7"), ("gene", "gene_3"), ("exon", "exon_1")):
@@ -584,7 +607,13 @@ def unit_default_spec(U):
     C03.unit_route(U, prefix="C04.default_spec")
 
 
-UNITS = [("default_spec", unit_default_spec), ("id_handler", unit_id_handler), ("autoid", unit_autoid), ("getitem", unit_getitem), ("bounded", unit_bounded)]
+def unit_schema(U):
+    """keys are compared exactly: the features table (and the tables holding keys) use plain text columns"""
+    from contracts import importer as IM_
+    IM_.prove_plain_schema(U, "C04", ["features", "duplicates", "autoincrements"])
+
+
+UNITS = [("schema", unit_schema), ("default_spec", unit_default_spec), ("id_handler", unit_id_handler), ("autoid", unit_autoid), ("getitem", unit_getitem), ("bounded", unit_bounded)]
 
 
 def replay_file(doc):
